@@ -385,10 +385,19 @@ def s_dropout(b: MB):
         ins = [x, b.const(np.array(0.0, dtype=np.float32)), b.const(np.array(True))]
         b.tag("dropout_train_ratio0")
     elif r < 0.9:
-        # training mode decided at run time (the feeds say False, so the run is deterministic)
+        # training mode decided at run time: feed variants 0, 1 say False, variants 2, 3 say True (`feeds_for`).  The node
+        # carries a `seed`, which makes onnxruntime's mask a function of (seed, run number): the k-th run of the original
+        # and of the optimized model see the same mask, so the comparison is deterministic in training mode as well.
         tm = b.add_input(TP.BOOL, [])
-        ins = [x, b.const(np.array(b.rng.choice([0.5, 0.0]), dtype=np.float32)), tm]
+        ratio = b.rng.choice([0.5, 0.5, 0.25, 0.0])
+        ins = [x, b.const(np.array(ratio, dtype=np.float32)), tm]
         b.tag("dropout_train_dynamic")
+        if ratio:
+            b.tag("dropout_train_dynamic_ratio_nonzero")
+        b.node("Dropout", ins, TP.FLOAT, x.shape, outs=outs, const=False, seed=b.rng.randint(1, 999))
+        if two:
+            b.vals.append(Val(outs[1], TP.BOOL, x.shape))
+        return
     else:
         ins = [x, "", b.const(np.array(False))]
         b.tag("dropout_noratio")
@@ -771,6 +780,43 @@ def s_expand_lower_rank(b: MB):
     b.tag("expand_lower_rank_" + kind)
 
 
+def s_rule_pairs(b: MB):
+    """Two successive single-parameter shape operators with constant parameters, matched by the default rewrite rules
+    (UnsqueezeUnsqueeze, TransposeTranspose/TransposeIdentity, Flatten2Reshape).  The two parameters are drawn so that every
+    order relation between them (<, =, >) and the boundary values (0, rank, -1) occur deliberately; each class has its tag."""
+    rng = b.rng
+    x = b.pick(lambda u: dyn_f(u) and u.static() and 1 <= len(u.shape) <= 2 and u.numel() > 0)
+    if x is None:
+        return
+    r = len(x.shape)
+    kind = rng.choice(["unsqueeze", "unsqueeze", "transpose", "flatten"])
+    if kind == "unsqueeze":
+        rel = rng.choice(["lt", "eq", "gt"])
+        pairs = [(p, q) for p in range(r + 1) for q in range(r + 2) if (p < q, p == q, p > q)[("lt", "eq", "gt").index(rel)]]
+        a1, a2 = rng.choice(pairs)
+        s1 = list(np.expand_dims(np.zeros(x.shape), a1).shape)
+        s2 = list(np.expand_dims(np.zeros(s1), a2).shape)
+        neg = rng.random() < 0.2  # the same position written as a negative axis
+        u = b.node("Unsqueeze", [x, b.const(np.array([a1], dtype=np.int64))], TP.FLOAT, s1, const=False)
+        b.node("Unsqueeze", [u, b.const(np.array([a2 - len(s2) if neg else a2], dtype=np.int64))], TP.FLOAT, s2, const=False)
+        b.tag("rulepair_unsqueeze_" + rel + ("_negative" if neg else ""))
+        b.tag("rulepair_unsqueeze_" + rel)
+    elif kind == "transpose":
+        if r != 2:
+            return
+        p1, p2 = rng.choice([([1, 0], [1, 0]), ([1, 0], [1, 0]), ([0, 1], [1, 0]), ([1, 0], [0, 1]), ([0, 1], [0, 1])])
+        s1 = [x.shape[i] for i in p1]
+        t = b.node("Transpose", [x], TP.FLOAT, s1, const=False, perm=p1)
+        b.node("Transpose", [t], TP.FLOAT, [s1[i] for i in p2], const=False, perm=p2)
+        b.tag("rulepair_transpose_" + ("inverse" if p1 == p2 == [1, 0] else "identity" if p1 == p2 else "mixed"))
+    else:
+        ax = rng.choice([0, 1, r, -1])
+        a = ax if ax >= 0 else ax + r
+        lead = int(np.prod(x.shape[:a])) if a else 1
+        b.node("Flatten", [x], TP.FLOAT, [lead, int(np.prod(x.shape[a:])) if a < r else 1], const=False, axis=ax)
+        b.tag("rule_flatten_axis_" + ("0" if ax == 0 else "rank" if ax == r else "neg" if ax < 0 else "mid"))
+
+
 def s_const_nodes(b: MB):
     r = b.rng.random()
     if r < 0.3:
@@ -795,7 +841,7 @@ def s_const_nodes(b: MB):
 SNIPPETS = [
     (s_elementwise, 5), (s_const_arith, 4), (s_transpose_const, 2), (s_cast, 4), (s_shape_chain, 6),
     (s_reshape_const, 3), (s_concat_zero, 2), (s_dropout, 3), (s_identity, 3), (s_sequence, 3),
-    (s_if, 4), (s_gates, 2), (s_init_input, 2), (s_const_nodes, 2), (s_loop_scan, 2), (s_guarded_rules, 1), (s_shared_folded_shape, 1), (s_expand_lower_rank, 1),
+    (s_if, 4), (s_gates, 2), (s_init_input, 2), (s_const_nodes, 2), (s_loop_scan, 2), (s_guarded_rules, 1), (s_shared_folded_shape, 1), (s_expand_lower_rank, 1), (s_rule_pairs, 3),
 ]
 
 
@@ -941,6 +987,9 @@ def feeds_for(model, rng, variant: int, override: dict | None = None):
             a = np.array([[0, 1, -1, 7][(k + variant) % 4] for k in range(n)], dtype=np.int64)
             if not shape:
                 a = np.array([[2, 1, 3, 7][variant % 4]], dtype=np.int64)
+        elif tt.elem_type == TP.BOOL:
+            # run-time flags (Dropout's training_mode): off in variants 0, 1, ON in variants 2, 3
+            a = np.array([variant >= 2] * n, dtype=np.bool_)
         else:
             a = np.zeros(n, dtype=NP[tt.elem_type])
         feeds[i.name] = a.reshape(shape)
